@@ -580,8 +580,10 @@ class SO3(SMPose):
         """
         if base.ismatrix(S, (-1, 3)) and not so3:
             return cls([base.trexp(s, check=check) for s in S], check=False)
-        else:
+        elif base.ismatrix(S, (3, 3)) or base.isvector(S, 3):
             return cls(base.trexp(S, check=check), check=False)
+        else:
+            raise ValueError('expecting an so(3) matrix or a 3-vector')
 
 # ============================== SE3 =====================================#
 
